@@ -287,6 +287,75 @@ def _task(t):
     return {"name": name, "st": st, "viols": viols}
 
 
+HUGE = 10 ** 4400       # more decimal digits than CPython converts to a string by default (4300)
+
+
+def _huge_task(t):
+    """Dead code must stay inert whatever the SIZE of the values it meets: operands with more than 4300 decimal
+    digits under a false guard, with the interpreter's default limit on int -> str conversion in force (a library
+    that formats a value eagerly on a non-error path raises ValueError there).  A raise is accepted only if the
+    same program raises the same class on small values under the same false guard (type refusal)."""
+    import sys
+    prog, n, p = t
+    name = O.expr_str(prog["expr"], prog["kinds"])
+    kinds = prog["kinds"]
+    st = {"executions": 0, "transitions": 0, "guard0_runs": 0, "guard1_runs": 0, "ill_typed_groups": 0, "groups": 0,
+          "e2_instances": 0, "nodes": 0, "undecided": 0, "capped": 0, "distinct": set(), "huge_value_runs": 0}
+    viols = {}
+    opname = prog["expr"][1]
+    growing = any(op in ("pow", "lshift", "rshift") for op in O.expr_ops(prog["expr"]))
+    doms = []
+    for i, k in enumerate(kinds):
+        if k in ("S", "P", "F", "A") and not (growing and i >= 1):
+            doms.append([HUGE, -HUGE, 3])
+        elif k == "B":
+            doms.append([0, 1])
+        else:
+            doms.append([3])
+    small_vec = tuple(d[-1] if len(d) == 3 else d[0] for d in doms)
+    for real, guards in (("guarded-int", (0,)), ("ite-then", (0,)), ("nested", (0, 1))):
+        small = run_guarded(prog, small_vec, n, p, real, guards)
+        for vec in itertools.product(*doms):
+            if not any(abs(v) >= HUGE for v in vec):
+                continue
+            sys.set_int_max_str_digits(4300)
+            try:
+                r = run_guarded(prog, vec, n, p, real, guards)
+            finally:
+                sys.set_int_max_str_digits(0)
+            st["executions"] += 1
+            st["huge_value_runs"] += 1
+            st["guard0_runs"] += 1
+            st["transitions"] += 1 + len(guards)
+            if r.exc == "NotASecret":
+                continue
+            if r.status == "raise" and not (small.status == "raise" and small.exc == r.exc):
+                sig = {"op": opname, "kinds": "".join(kinds), "klass": "raises-under-false-guard", "real": real,
+                       "guards": "".join(map(str, guards)), "exc": r.exc, "huge": True}
+                k = common.sig_hash(sig)
+                if k not in viols:
+                    viols[k] = {"sig": sig, "count": 0,
+                                "what": "%s on operands %s (H = 10^4400) under %s guards=%s: raises %s (%s) although the guard is false"
+                                % (name, ["H" if v == HUGE else ("-H" if v == -HUGE else v) for v in vec], real, list(guards), r.exc, r.msg),
+                                "case": {"prog": prog, "huge_vec": ["H" if v == HUGE else ("-H" if v == -HUGE else v) for v in vec], "n": n, "p": p,
+                                         "real": real, "guards": list(guards)}}
+                viols[k]["count"] += 1
+            elif r.status == "ok" and r.unsat:
+                sig = {"op": opname, "kinds": "".join(kinds), "klass": "unsat-under-false-guard", "real": real, "huge": True}
+                k = common.sig_hash(sig)
+                if k not in viols:
+                    viols[k] = {"sig": sig, "count": 0, "what": "%s on huge operands under %s: constraints %s not satisfied" % (name, real, r.unsat[:3]),
+                                "case": {"prog": prog, "huge_vec": ["H" if v == HUGE else ("-H" if v == -HUGE else v) for v in vec], "n": n, "p": p,
+                                         "real": real, "guards": list(guards)}}
+                viols[k]["count"] += 1
+    st["distinct"] = 0
+    return {"name": name, "st": st, "viols": viols}
+
+
+def _dispatch(t):
+    return _huge_task(t[1:]) if t[0] == "huge" else _task(t)
+
+
 def _init():
     H.bind(REC.BN128)
 
@@ -313,7 +382,9 @@ def run(ctx):
         tasks.append((prog, 2, REC.BN128, d2vals, False))
     random.Random(ctx.seed).shuffle(tasks)
     tasks.sort(key=lambda t: -len(t[0]["kinds"]) - (2 if t[4] else 0))
-    results = common.pool_map(_task, tasks, init=_init)
+    # values of more than 4300 decimal digits under a false guard (default int -> str limit in force)
+    tasks += [("huge", prog, 3, REC.BN128) for prog in progs if "A" not in prog["kinds"]]
+    results = common.pool_map(_dispatch, tasks, init=_init)
     agg = {}
     for r in results:
         common.merge_counts(agg, r["st"])
@@ -342,6 +413,10 @@ def replay(case):
     H.bind(case["p"])
     from . import _e1common as X
     prog = {"expr": X._tuplify(case["prog"]["expr"]), "kinds": list(case["prog"]["kinds"])}
+    if "huge_vec" in case:
+        t = _huge_task((prog, case["n"], case["p"]))
+        return {"program": O.expr_str(prog["expr"], prog["kinds"]), "operands": case["huge_vec"], "H": "10**4400",
+                "violations": [v["sig"] for v in t["viols"].values()], "what": [v["what"] for v in t["viols"].values()][:3]}
     r = run_guarded(prog, tuple(case["vals"]), case["n"], case["p"], case["real"], tuple(case["guards"]))
     u = run_guarded(prog, tuple(case["vals"]), case["n"], case["p"], "none", ())
     t = _task((prog, case["n"], case["p"], sorted(set(E.D(case["n"])) | set(case["vals"])), True))
